@@ -45,8 +45,8 @@ let rec walk (v : value) (cm : ((n * n) * n) list) (off : nat) (b : Buffer.t) : 
 
 let is_container = function FValue (VArr _) | FValue (VObj _) -> true | _ -> false
 
-let doc cs =
-  match parse_str cs with
+let doc o cs =
+  match parse_str_with o cs with
   | Err _ -> "ERR"
   | Panic _ | OutOfFuel -> "MODEL-PANIC"
   | Ok (v, cm) ->
@@ -61,7 +61,7 @@ let doc cs =
        let b = Buffer.create 128 in
        walk v cm O b;
        let cnt p = List.length (List.filter p (List.mapi (fun i f -> (i, f)) tr)) in
-       Printf.sprintf "V=%d C=%d CA=%d/%d/%d/%d/%d/%d T=%s F=%s S=1 N=%s"
+       Printf.sprintf "V=%d C=%d CA=%d/%d/%d/%d/%d/%d T=%s F=%s S=1 DL=1 N=%s"
          (ii (value_volume v)) count (ii (count_where is_container v))
          (cnt (fun _ -> true))
          (cnt (fun (_, f) -> match f with FKey _ -> true | _ -> false))
@@ -96,6 +96,6 @@ let conv ty cs =
 
 let run toks =
   match toks with
-  | ["s"; _; h] -> (doc (cps_of_tok h), "")
+  | ["s"; o; h] -> (doc (opts_of_tok o) (cps_of_tok h), "")
   | ["t"; ty; h] -> (conv ty (cps_of_tok h), "")
   | _ -> raise (Bad_case "nav")
